@@ -74,11 +74,21 @@ func (r *recorder) Write(p []byte) (int, error) {
 type chunkComp struct {
 	chunks [][]byte
 	failAt int
+	// panics: the failure is a panic (a nil view model, an index out of range), not an error
+	panics bool
+	// between, when set, is called before every chunk (a seam: the component may be held there)
+	between func(i int)
 }
 
 func (c chunkComp) Render(ctx context.Context, w io.Writer) error {
 	for i, ch := range c.chunks {
+		if c.between != nil {
+			c.between(i)
+		}
 		if i == c.failAt {
+			if c.panics {
+				panic(errChunk)
+			}
 			return errChunk
 		}
 		if _, err := w.Write(ch); err != nil {
@@ -86,6 +96,9 @@ func (c chunkComp) Render(ctx context.Context, w io.Writer) error {
 		}
 	}
 	if c.failAt == len(c.chunks) {
+		if c.panics {
+			panic(errChunk)
+		}
 		return errChunk
 	}
 	return nil
@@ -163,8 +176,9 @@ func c11World(rc *kernel.RunCtx) {
 		b := t.Range(1, 12, "budget")
 		tree = genSpec(t, &b, 1)
 	}
+	panicky := false // set around the requests whose component fails by panicking
 	mk := func(failAt int, env *Env) templ.Component {
-		var c templ.Component = chunkComp{chunks: chunks, failAt: failAt}
+		var c templ.Component = chunkComp{chunks: chunks, failAt: failAt, panics: panicky}
 		if wrapGenerated || tree != nil {
 			items := []templ.Component{}
 			if tree != nil {
@@ -254,6 +268,12 @@ func c11World(rc *kernel.RunCtx) {
 						nops := len(rec.ops)
 						rec.commit(200) // net/http sends an implicit 200 when the handler returns without writing
 						evals++
+						if cl := rec.sent.Get("Content-Length"); cl != "" && cl != fmt.Sprint(rec.body.Len()) {
+							// whatever the response is, a declared length that is not the length of what follows
+							// makes the client drop or truncate it
+							rc.Fail("C11/content-length-mismatch", "conf %+v fail-at %d: the response declares Content-Length %s and carries %d bytes (status %d, ops %v)", conf, j, cl, rec.body.Len(), rec.status, rec.ops)
+							continue
+						}
 						fails := cancelled || j <= len(chunks)
 						desc := fmt.Sprintf("conf %+v, %d chunks %v, fail-at %d (cancelled=%v), generatedRoot=%v tree=%v", conf, len(chunks), chunkSizes(chunks), j, cancelled, wrapGenerated, tree)
 						body := rec.body.Bytes()
@@ -358,6 +378,106 @@ func c11World(rc *kernel.RunCtx) {
 			if errText || rec.status != wantStatus {
 				rc.Fail("C11/error-response-after-document-bytes", "conf %+v: the render succeeded and write %d to the client failed half way; the response is status %d (want %d) and its body mixes document bytes with an error response: %q ops %v", conf, rec.failWrite, rec.status, wantStatus, kernel.Short(string(body[max(0, len(body)-200):]), 200), rec.ops)
 			}
+		}
+	}
+	// the component fails by panicking after k chunks: the panic may travel up (net/http then
+	// drops the connection: nothing was sent) or be turned into the error response; a partial
+	// document under a success status is neither
+	if !rc.Failed() {
+		for _, eh := range []int{0, 1} {
+			for j := 0; j <= len(chunks) && !rc.Failed(); j++ {
+				conf := hconf{Status: statuses[t.Choose(len(statuses), "panic-status")], EH: eh}
+				var rec *recorder
+				panicky = true
+				h := conf.handler(mk(j, newEnv(u)), &rec)
+				panicky = false
+				rec = newRecorder()
+				escaped := func() (p any) {
+					defer func() { p = recover() }()
+					h.ServeHTTP(rec, httptest.NewRequest(http.MethodGet, "/page", nil))
+					return nil
+				}()
+				evals++
+				failedReqs++
+				k.Count("fault_component_panic", 1)
+				body := rec.body.Bytes()
+				if escaped != nil {
+					if len(rec.ops) != 0 || len(body) != 0 {
+						rc.Fail("C11/partial-document-sent", "conf %+v: the component panicked before chunk %d and the panic travelled up, but the response had been touched: ops %v body %q", conf, j, rec.ops, kernel.Short(string(body), 200))
+					}
+					continue
+				}
+				rec.commit(200)
+				if bytes.Contains(body, []byte("[[chunk")) || containsDocPiece(body, D) || (rec.status >= 200 && rec.status < 300 && eh == 0) {
+					rc.Fail("C11/partial-document-sent", "conf %+v: the component panicked before chunk %d; the handler answered status %d with %q (ops %v)", conf, j, rec.status, kernel.Short(string(body), 200), rec.ops)
+				}
+			}
+		}
+	}
+	// a request whose client goes away while its component is in the middle of rendering (and
+	// does not look at its context); another request is served meanwhile on the same pool;
+	// then the first component carries on
+	if !rc.Failed() && len(chunks) > 0 && len(D) > 0 {
+		recA, recB := newRecorder(), newRecorder()
+		other := chunkComp{chunks: [][]byte{[]byte(strings.Repeat("B", len(D)+17)), []byte("[[tail-of-B]]")}, failAt: 3}
+		holdAt := t.Choose(len(chunks), "hold-a-at")
+		compA := chunkComp{chunks: chunks, failAt: len(chunks) + 1, between: func(i int) {
+			if i == holdAt {
+				k.Park("reqA", "mid-render", fmt.Sprint(i), nil)
+			}
+		}}
+		bHeld := t.Bool("hold-b-too")
+		compB := other
+		if bHeld {
+			compB.between = func(i int) {
+				if i == 1 {
+					k.Park("reqB", "mid-render", "1", nil)
+				}
+			}
+		}
+		ctxA, cancelA := context.WithCancel(context.Background())
+		aDone, bDone := false, false
+		k.Go(func() {
+			templ.Handler(compA, templ.WithStatus(201)).ServeHTTP(parkRecorder{recA, func(kind string, n int) {}}, httptest.NewRequest(http.MethodGet, "/a", nil).WithContext(ctxA))
+			aDone = true
+		})
+		k.Quiesce()
+		cancelA() // the client of A is gone; its component is held mid-render
+		waitCancelAftermath()
+		k.Count("fault_request_cancelled_while_component_held", 1)
+		k.Go(func() {
+			templ.Handler(compB).ServeHTTP(parkRecorder{recB, func(kind string, n int) {}}, httptest.NewRequest(http.MethodGet, "/b", nil))
+			bDone = true
+		})
+		k.Quiesce()
+		// A's component carries on (and finishes) before B does, when B is held
+		for i := 0; i < 100; i++ {
+			p := k.Find("reqA")
+			if p == nil {
+				break
+			}
+			k.Run(p, kernel.Decision{})
+		}
+		for i := 0; i < 100; i++ {
+			p := k.Find("reqB")
+			if p == nil {
+				break
+			}
+			k.Run(p, kernel.Decision{})
+		}
+		k.Quiesce()
+		cancelA()
+		evals += 2
+		wantB := append(append([]byte{}, other.chunks[0]...), other.chunks[1]...)
+		if !bDone {
+			rc.Fail("C11/concurrent-request-corrupts-response", "request B never finished")
+		} else if recB.status != http.StatusOK || !bytes.Equal(recB.body.Bytes(), wantB) {
+			rc.Fail("C11/concurrent-request-corrupts-response", "request B was served while the component of request A, whose client had gone, was still rendering (held before chunk %d of %d; B held too: %v): B got status %d and %q, want its own %d bytes", holdAt, len(chunks), bHeld, recB.status, kernel.Short(recB.body.String(), 200), len(wantB))
+		}
+		// A: its client is gone; whatever it was sent must still be all or nothing
+		wantA := bytes.Join(chunks, nil)
+		if aDone && recA.committed && recA.status == 201 && !bytes.Equal(recA.body.Bytes(), wantA) {
+			rc.Fail("C11/partial-document-sent", "request A (client gone mid-render) was answered 201 with %d of %d document bytes", recA.body.Len(), len(wantA))
 		}
 	}
 	// two requests in flight on one handler and one pool: A is held inside its final Write
